@@ -19,6 +19,40 @@ from tri import Child, Model, Ret, Unrecognised, SR
 
 
 def check_find(rep, F, cfg):
+    """Decided by evaluating the typed tree over the (document, key) grid (findmodel); the structural step-table rules are the
+    fallback when the body uses a construct the evaluator does not interpret, and extra evidence otherwise."""
+    import core
+    import findmodel
+    f = F.fn("value::Object::find")
+    tag = "[%s]" % cfg
+    sub = core.Report(rep.pid, rep.tier)
+    _check_find_structural(sub, F, cfg)
+    rows, unrec = (None, "anchor missing") if f is None else findmodel.evaluate(F, f)
+    if rows is None:
+        rep.note("find model not applicable for %s: %s; structural rules decide" % (cfg, unrec))
+        rep.instances.extend(sub.instances)
+        return
+    for key, want, got, agree in rows:
+        if "[" in key or "]" in key:
+            rule = "INDEX"
+        elif want is None and "." in key:
+            rule = "STEP-TOTAL"
+        else:
+            rule = "T-FIND"
+        rep.check(agree, rule, "%s/model%s/%s" % (rule, tag, key if key else "<empty>"), f.sp,
+                  "find(%r) on the model document is %s" % (key, "absent" if want is None else "the value the path language names"),
+                  None if agree else "expected %r, the body yields %r" % (want, got))
+    if all(r[3] for r in rows):
+        # the evaluation covers the whole grid: shape findings of the structural rules are not violations
+        rep.instances.extend(i for i in sub.instances if i.status == "discharged")
+        dropped = [i.key for i in sub.instances if i.status != "discharged"]
+        if dropped:
+            rep.note("structural find rules not applicable to this shape of the body (%d): %s" % (len(dropped), ", ".join(dropped[:6])))
+    else:
+        rep.instances.extend(sub.instances)
+
+
+def _check_find_structural(rep, F, cfg):
     f = F.fn("value::Object::find")
     tag = "[%s]" % cfg
     if f is None:
